@@ -4,7 +4,18 @@
 CRDT = [("crdt-counter", {"quick": ["-n", "120"], "thorough": ["-n", "4000"], "search": ["-n", "1500"]}),
         ("crdt-map", {"quick": ["-n", "150"], "thorough": ["-n", "4000"], "search": ["-n", "1500"]}),
         ("crdt-list", {"quick": ["-n", "150"], "thorough": ["-n", "4000"], "search": ["-n", "1500"]})]
+WIRE = [("wire-counter", {"quick": ["-n", "40"], "thorough": ["-n", "1500"], "search": ["-n", "400"]}),
+        ("wire-map", {"quick": ["-n", "40"], "thorough": ["-n", "1500"], "search": ["-n", "400"]}),
+        ("wire-list", {"quick": ["-n", "40"], "thorough": ["-n", "1500"], "search": ["-n", "400"]})]
+WIREF = [(n, {k: v + ["-faults"] for k, v in a.items()}) for (n, a) in WIRE]
+SRV_TRUST = ["in-memory MongoDB wire-protocol server (harness/fakemongo) standing in for mongod: unique _id, ordered insertMany, upsert, find with sort — assumed to match MongoDB for the operators orda uses",
+             "in-process MQTT broker (harness/fakemqtt) recording publishes"]
 PROPS = {
+    "C06": {"slices": WIRE, "trusted": SRV_TRUST, "assumptions": ["handlers of one datatype run one at a time (the lock, C12)", "no storage fault during the request (C08)"]},
+    "C13": {"slices": WIRE, "trusted": SRV_TRUST, "assumptions": ["handlers of one datatype run one at a time"]},
+    "C16": {"slices": WIRE, "trusted": SRV_TRUST, "assumptions": ["liveness of the Go code (no hang, no crash) is tested, not proved"]},
+    "C17": {"slices": WIRE, "trusted": SRV_TRUST, "assumptions": ["ResetCollection is not modelled yet"]},
+    "C18": {"slices": WIRE, "trusted": SRV_TRUST, "assumptions": ["realtime clients are not driven yet; publishes are recorded at the broker"]},
     "C01": {"slices": CRDT, "trusted": [], "assumptions": ["clocks below the half-range wrap", "delivery in log order, whole transaction units"]},
     "C02": {"slices": CRDT, "trusted": [], "assumptions": ["clocks below the half-range wrap"]},
     "C09": {"slices": CRDT, "trusted": [], "assumptions": ["snapshot export/import is the identity on the model state (C10 carries the round trip)"]},
